@@ -1315,7 +1315,9 @@ class Stage:
     @property
     def _transcribed(self):
         if not self.is_transcribed:
-            self.master._transcribe()
+            # Go through the master's accessor: it transcribes an augmented copy,
+            # not the user's own stage tree
+            self.master._transcribed
         if self._is_original:
             return self._augmented 
         else:
